@@ -12,7 +12,7 @@
    def_sel vs n = the selection set of an operation / fragment definition with its root type /
    type condition.  violb = the rule's test. *)
 From GV Require Import Base.Prelude Lang.Ast Exec.Value Exec.Schema Exec.Spec Exec.Typing
-  Valid.Rules Valid.RulesPaths Valid.Rules13 Valid.RulesStream Valid.RulesStreamProps.
+  Valid.Rules Valid.RulesPaths Valid.Rules13 Valid.RulesStream Valid.RulesStreamProps Valid.RulesStreamErase.
 
 (* the test: a directive named `stream` entered with a field definition and a parent type, the
    field's type being neither [T] nor [T]! *)
@@ -65,6 +65,12 @@ Theorem C12_stream_errors_point_at_stream : forall vs d e,
                     name_str nm = n_stream.
 Proof. exact stream_rule_points_at_stream. Qed.
 Print Assumptions C12_stream_errors_point_at_stream.
+
+(* adding, changing or removing descriptions never changes what the rule reports *)
+Theorem C12_stream_rule_ignores_descriptions : forall vs d,
+  rule_stream_on_list_field vs (erase_descriptions d) = rule_stream_on_list_field vs d.
+Proof. exact stream_rule_erase. Qed.
+Print Assumptions C12_stream_rule_ignores_descriptions.
 
 (* non-vacuity: `{ a @stream }` on a schema whose Query.a is an Int is reported, at the directive *)
 Example C12_stream_example :
